@@ -11,6 +11,6 @@ import vcheck
 vcheck.prepare_go_module()
 PY
 if [ -f lib/gen.py ]; then python3 lib/gen.py all; fi
-(cd coq && ./regen.sh && timeout 7000 make -j16 2>&1 | grep -v '^COQ' | tail -40)
+(cd coq && ./regen.sh && (timeout 7000 make -k -j16 2>&1 | grep -v "^COQ" | tail -40) || true)
 (cd goharness && go build -modfile ../.work/gomod/repo/go.mod -tags verif ./... )
 echo setup done
